@@ -75,7 +75,9 @@ Prog(tag, script, lookups, feat, kern, gpos, m) ==
 ProgG(gv, tag, script, lookups, feat, kern, gpos, m) ==
   [Prog(tag, script, lookups, feat, kern, gpos, m) EXCEPT !.gdef = GdefV(gv)]
 
-T(id, prog, alpha, n) == [id |-> id, prog |-> prog, alpha |-> alpha, n |-> n]
+T(id, prog, alpha, n) == [id |-> id, prog |-> prog, alpha |-> alpha, n |-> n, ws |-> {}]
+\* a template with an explicit set of glyph strings (the combination families below)
+TW(id, prog, ws) == [id |-> id, prog |-> prog, alpha |-> {}, n |-> 0, ws |-> ws]
 
 \* lookup flags with their mark filtering set
 Flags == {<<0, -1>>, <<2, -1>>, <<4, -1>>, <<8, -1>>, <<256, -1>>, <<512, -1>>, <<16, 0>>, <<6, -1>>, <<14, -1>>}
@@ -168,12 +170,16 @@ PairMulti ==
 \* ---- type 3 ---------------------------------------------------------------------
 \* anchor shapes: "gen" arbitrary; "x0" entry anchors at x = 0; "flat" also all y = 0;
 \* "fit" exit anchors at the origin and entry anchors at the advance width, all y = 0
+\* "fitx" B has an exit anchor off the origin and every entry anchor at advance + own exit.x:
+\*        right-to-left the join A -> B -> A is exact AND changes an advance (that of B)
+ExitX(g) == IF g = 2 THEN 29 ELSE 0
 CAn(shape, af, k, isEntry, g) ==
   CASE shape = "gen"  -> An(af, k)
     [] shape = "x0"   -> [An(af, k) EXCEPT !.x = IF isEntry THEN 0 ELSE @]
     [] shape = "flat" -> [An(af, k) EXCEPT !.x = IF isEntry THEN 0 ELSE @, !.y = 0]
     [] shape = "fit"  -> [f |-> af, x |-> IF isEntry THEN AdvOf(0)[g + 1] ELSE 0, y |-> 0]
     [] shape = "fity" -> [f |-> af, x |-> IF isEntry THEN AdvOf(0)[g + 1] ELSE 0, y |-> An(af, k).y]
+    [] shape = "fitx" -> [f |-> af, x |-> IF isEntry THEN AdvOf(0)[g + 1] + ExitX(g) ELSE ExitX(g), y |-> An(af, k).y]
 
 CursSub(cf, af, shape, bexit) ==
   [cov |-> Cov(cf, <<1, 2, 3>>),
@@ -428,11 +434,139 @@ KernWithGposG ==
      ProgG(gv, "mark", "latn", <<Lk(4, 0, -1, FALSE, <<MarkBaseSub(1, 1)>>)>>, <<0>>, kt[2], TRUE, 1),
      Items({1, 2, 4, 5}), 3) : kt \in {k \in KernTables : k[1] \in {"h", "h+cross"}}, gv \in {"absent", "m2-uncl"}}
 
+\* ---- combinations: cursive chains, marks (on marks), displacements and kerning in ONE run ----
+\* "The final pen positions equal font advances plus these adjustments, with each mark placed
+\*  at base anchor minus mark anchor relative to its base": the mechanisms compose.  A mark
+\*  (or a mark on a mark) sits on the first / a middle / the last glyph of a cursive chain of
+\*  2..4 glyphs that the join really moves (across the line, RIGHT_TO_LEFT flag set or clear;
+\*  along the line through the fitted advance), marks are skipped between the joined glyphs,
+\*  a displaced mark stands inside a chain, a displaced base with marks beside it, kerning
+\*  (PairPos or kern table) adjusts the chain's glyphs and the glyph after it, a ligature
+\*  carries marks on its components and starts a chain.
+\* anchors of the mark lookups: values that no cursive anchor (An) has
+AnC(af, k) == [f |-> af, x |-> 13 + 41 * k, y |-> 19 * k - 7 - 2 * k * k]
+CombMarkBase(withL) ==
+  Lk(4, 0, -1, FALSE,
+     <<[mcov |-> Cov(1, <<4, 5>>), bcov |-> Cov(2, IF withL THEN <<1, 2, 3, 7>> ELSE <<1, 2, 7>>), nc |-> 2,
+        marks |-> <<[c |-> 0, a |-> AnC(1, 1)], [c |-> 1, a |-> AnC(1, 2)]>>,
+        bases |-> IF withL
+                  THEN << <<AnC(1, 3), AnC(1, 4)>>, <<AnC(1, 5), Null>>, <<AnC(2, 6), AnC(3, 7)>>, <<AnC(1, 8), AnC(1, 9)>> >>
+                  ELSE << <<AnC(1, 3), AnC(1, 4)>>, <<AnC(1, 5), Null>>, <<AnC(1, 8), AnC(1, 9)>> >>]>>)
+CombMkMk ==
+  Lk(6, 0, -1, FALSE,
+     <<[mcov |-> Cov(1, <<4, 5>>), bcov |-> Cov(1, <<4, 5>>), nc |-> 2,
+        marks |-> <<[c |-> 0, a |-> AnC(1, 11)], [c |-> 1, a |-> AnC(1, 12)]>>,
+        bases |-> << <<AnC(1, 13), AnC(1, 14)>>, <<AnC(1, 15), AnC(1, 16)>> >>]>>)
+CombLig ==
+  Lk(5, 0, -1, FALSE,
+     <<[mcov |-> Cov(1, <<4, 5>>), lcov |-> Cov(1, <<3>>), nc |-> 2,
+        marks |-> <<[c |-> 0, a |-> AnC(1, 17)], [c |-> 1, a |-> AnC(1, 18)]>>,
+        ligs |-> << << <<AnC(1, 19), AnC(1, 20)>>, <<AnC(1, 21), Null>> >> >>]>>)
+CombCurs(shape, fl, bexit) == Lk(3, fl, -1, FALSE, <<CursSub(1, 1, shape, bexit)>>)
+\* placement (and, with bit 2, advance) of M2 and of C, neither of which a cursive lookup covers
+CombDist(vf) == Lk(1, 0, -1, FALSE, <<[f |-> 2, cov |-> Cov(1, <<5, 7>>), vf |-> vf, vs |-> <<V(3), V(4)>>]>>)
+\* kerning that skips marks: (A|B, C) adjusts the advance of the chain's glyph and displaces C;
+\* pairs inside a chain and (C, A|B) adjust advances only
+CombPair ==
+  Lk(2, 8, -1, FALSE,
+     <<[f |-> 1, cov |-> Cov(1, <<1, 2>>), vf1 |-> 4, vf2 |-> 5,
+        sets |-> << <<[g2 |-> 7, v1 |-> V(1), v2 |-> V(2)]>>, <<[g2 |-> 7, v1 |-> V(3), v2 |-> V(4)]>> >>],
+       [f |-> 1, cov |-> Cov(2, <<1, 2, 7>>), vf1 |-> 4, vf2 |-> 0,
+        sets |-> << <<[g2 |-> 2, v1 |-> V(5), v2 |-> V(5)]>>, <<[g2 |-> 1, v1 |-> V(6), v2 |-> V(6)]>>,
+                    <<[g2 |-> 1, v1 |-> V(7), v2 |-> V(7)], [g2 |-> 2, v1 |-> V(8), v2 |-> V(8)]>> >>]>>)
+PairsC == << <<1, 2, -30>>, <<2, 1, 25>>, <<2, 7, -19>>, <<7, 1, 33>> >>
+
+AllOf(ls) == [k \in 1 .. Len(ls) |-> k - 1]
+CombProg(ls, kern, m) == Prog("curs", "arab", ls, AllOf(ls), kern, TRUE, m)
+CombOrd(ord, curs, rest) == IF ord = "cm" THEN <<curs>> \o rest ELSE rest \o <<curs>>
+
+\* glyph strings: a chain whose glyphs are each followed by one of the mark sequences D
+ItSeq(gs) == [q \in 1 .. Len(gs) |-> It(gs[q])]
+DecoStr(chain, d) == ConcatAll([k \in 1 .. Len(chain) |-> <<It(chain[k])>> \o d[k]])
+DecoStrs(chains, D) == UNION {{DecoStr(c, d) : d \in [1 .. Len(c) -> D]} : c \in chains}
+Affix(pre, S, suf) == {ItSeq(p) \o x \o ItSeq(q) : p \in pre, x \in S, q \in suf}
+Gs(D) == {ItSeq(d) : d \in D}
+
+DecoQ == Gs({<<>>, <<4>>, <<4, 5>>})
+DecoT == Gs({<<>>, <<4>>, <<4, 5>>, <<5>>, <<4, 4>>, <<5, 4>>})
+Deco1 == Gs({<<>>, <<4>>})
+Deco5 == Gs({<<>>, <<5>>, <<4, 5>>})
+Chains2 == {<<1, 2>>, <<2, 1>>, <<3, 1>>}
+Chains3 == IF Quick THEN {<<1, 2, 1>>, <<3, 2, 2>>} ELSE {<<1, 2, 1>>, <<3, 2, 2>>, <<2, 1, 1>>}
+Chains4 == IF Quick THEN {<<1, 2, 2, 1>>} ELSE {<<1, 2, 2, 1>>, <<3, 1, 2, 1>>}
+
+CombStrs1 ==
+  IF Quick
+  THEN DecoStrs(Chains2, DecoQ) \cup DecoStrs(Chains3, DecoQ) \cup DecoStrs(Chains4, Deco1)
+  ELSE DecoStrs(Chains2, DecoT) \cup DecoStrs(Chains3, DecoT) \cup DecoStrs(Chains4, DecoQ)
+
+CombShapes == {"gen", "x0", "flat", "fit", "fity", "fitx"}
+CombCursMark ==
+  {TW(<<"comb-curs-mark", c[1], c[2], c[3], c[4], c[5]>>,
+      CombProg(CombOrd(c[4], CombCurs(c[1], c[2], c[5]), <<CombMarkBase(TRUE), CombMkMk>>), <<>>, c[3]),
+      CombStrs1) :
+     c \in {c \in CombShapes \X {8, 9} \X {0, 1} \X {"cm", "mc"} \X BOOLEAN :
+              /\ c[4] = "cm" \/ ~Quick \/ c[1] \in {"x0", "fity"}
+              /\ c[5] \/ ~Quick}}
+
+\* a ligature with marks on its components (one component number out of range) that starts a chain
+LigDeco == {<<>>, <<ItC(4, 0)>>, <<ItC(4, 1)>>, <<ItC(4, 0), ItC(5, 1)>>, <<ItC(5, 0), ItC(4, 1)>>, <<ItC(4, 2)>>,
+            <<ItC(4, 0), ItC(5, 0)>>}
+CombStrsLig ==
+  {<<It(3)>> \o dl \o <<It(1)>> \o da \o rest :
+     dl \in LigDeco, da \in Deco1,
+     rest \in {<<>>} \cup {<<It(2)>> \o db : db \in Deco1} \cup (IF Quick THEN {} ELSE {<<It(2)>> \o db \o <<It(1), It(4)>> : db \in Deco1})}
+CombCursLig ==
+  {TW(<<"comb-curs-marklig", shape, fl, m>>,
+      CombProg(<<CombCurs(shape, fl, TRUE), CombLig, CombMarkBase(FALSE), CombMkMk>>, <<>>, m),
+      CombStrsLig) :
+     shape \in {"x0", "fity", "gen", "fitx"}, fl \in {8, 9}, m \in {0, 1}}
+
+\* a displaced mark (M2, unattached after B) inside a chain, a displaced base (C) with marks beside a chain
+CombStrsDist ==
+  Affix({<<>>, <<7, 4>>}, DecoStrs(IF Quick THEN {<<1, 2>>, <<1, 2, 1>>} ELSE {<<1, 2>>, <<1, 2, 1>>, <<2, 2, 1>>}, Deco5),
+        {<<>>, <<7>>, <<7, 5>>})
+CombCursDist ==
+  {TW(<<"comb-curs-dist", c[1], c[2], c[3], c[4]>>,
+      CombProg(IF c[4]
+               THEN <<CombDist(IF c[3] = 0 THEN 3 ELSE 7), CombCurs(c[1], c[2], TRUE), CombMarkBase(TRUE), CombMkMk>>
+               ELSE <<CombCurs(c[1], c[2], TRUE), CombMarkBase(TRUE), CombMkMk, CombDist(IF c[3] = 0 THEN 3 ELSE 7)>>,
+               <<>>, c[3]),
+      CombStrsDist) :
+     c \in {c \in {"x0", "fity", "gen"} \X {8, 9} \X {0, 1} \X BOOLEAN : ~c[4] \/ ~Quick \/ c[2] = 9}}
+
+\* kerning between the glyphs of a chain and between a chain and a following glyph that carries marks
+CombStrsKern ==
+  LET S == DecoStrs({<<1, 2>>, <<2, 1>>, <<1, 2, 1>>}, IF Quick THEN Deco1 ELSE DecoQ) IN
+  Affix({<<>>}, S, {<<7>>, <<7, 4>>, <<7, 4, 5>>}) \cup Affix({<<7, 4>>}, S, {<<>>})
+CombCursKern ==
+  {TW(<<"comb-curs-kern", shape, fl, m>>,
+      CombProg(<<CombCurs(shape, fl, TRUE), CombPair, CombMarkBase(TRUE), CombMkMk>>, <<>>, m),
+      CombStrsKern) :
+     shape \in {"x0", "fity", "gen", "fit"}, fl \in {8, 9}, m \in {0, 1}}
+  \cup
+  {TW(<<"comb-curs-kerntable", kt[1], shape, fl, m>>,
+      CombProg(<<CombCurs(shape, fl, TRUE), CombMarkBase(TRUE)>>, kt[2], m),
+      CombStrsKern) :
+     kt \in {<<"h", <<K0(1, PairsA)>> >>, <<"hc", <<K0(1, PairsC)>> >>},
+     shape \in {"x0", "fity", "gen"}, fl \in {8, 9}, m \in {0, 1}}
+
+\* the same in fonts whose GDEF does not class M1 as a mark / that have no GDEF: the cursive
+\* lookup cannot skip such a "mark" (the chain breaks there), the mark lookups attach it all the same
+CombGdef ==
+  {TW(<<"comb-curs-mark-gdef", gv, shape, fl>>,
+      [CombProg(<<CombCurs(shape, fl, TRUE), CombMarkBase(TRUE), CombMkMk>>, <<>>, 0) EXCEPT !.gdef = GdefV(gv)],
+      DecoStrs({<<1, 2>>, <<1, 2, 1>>}, DecoQ)) :
+     gv \in {"m1-uncl", "absent"}, shape \in {"x0", "fity"}, fl \in {8, 9}}
+
+Comb == CombCursMark \cup CombCursLig \cup CombCursDist \cup CombCursKern \cup CombGdef
+
 Templates ==
   SingleVf \cup SingleFlag \cup Single2 \cup SingleMulti \cup Pair1Vf \cup Pair1Long \cup Pair2 \cup PairMulti
   \cup Curs \cup MarkBase \cup MarkBaseMulti \cup MarkLig \cup MarkMark \cup Ctx \cup Multi
   \cup KernFallback \cup KernWithGpos \cup KernWithDist
   \cup SingleFlagG \cup Pair1LongG \cup MarkBaseG \cup MarkLigG \cup MarkMarkG \cup CtxG \cup MultiG \cup KernWithGposG
+  \cup Comb
 
 \* thorough: one more glyph per string
 LenOf(t) == IF Quick THEN t.n ELSE t.n + 1
@@ -440,7 +574,9 @@ LenOf(t) == IF Quick THEN t.n ELSE t.n + 1
 ---------------------------------------------------------------------------
 \* Init only picks the case; the single step marks it done, so that the invariants (where all the
 \* work is) are evaluated by TLC's workers in parallel.
-Init == \E t \in Templates : \E s \in Strs(t.alpha, LenOf(t)) : tpl = t /\ w = s /\ done = FALSE
+\* (the state keeps the template's id and program only)
+Init == \E t \in Templates : \E s \in Strs(t.alpha, LenOf(t)) \cup t.ws :
+          tpl = [id |-> t.id, prog |-> t.prog] /\ w = s /\ done = FALSE
 Next == done = FALSE /\ done' = TRUE /\ UNCHANGED <<tpl, w>>
 Spec == Init /\ [][Next]_vars
 
@@ -491,6 +627,7 @@ DesignOKOn(outs) ==
     /\ JoinHolds(o, tpl.prog.adv)
     /\ AdvanceIsSum(o, tpl.prog.adv)
     /\ ChainAnchorStays(o)
+    /\ MarksTransparent(o, tpl.prog.adv)
 
 \* vacuity tags: which of the families of behaviour the case exercises (counted by the harness,
 \* the driver refuses a run in which one of them is never exercised)
@@ -500,10 +637,44 @@ KernPairHit(sel(_)) ==
         LET x == KernValue(DevDefault, tpl.prog.kern[k], w[j].g, w[j + 1].g) IN
         sel(tpl.prog.kern[k]) /\ x.has /\ x.v # 0
 IsVertical(st) == ~KernHorizontal(st)
+\* ... of the combinations: which mechanisms meet in the (default) outcome o of the case
+CombTags(o) ==
+  LET P == tpl.prog  adv == P.adv  n == Len(o)
+      tag(c, t) == IF c THEN {t} ELSE {}
+      Root(j) == RootOf(o, j)
+      Marks == {j \in 1 .. n : o[j].pl.t = "M"}
+      OnChain == {j \in Marks : InChain(o, Root(j))}
+      Inside(j) == \E p \in 1 .. n : CLink(o, p) /\ p < j /\ j < CNext(o, p)
+      FlagSet(b) == IF CLink(o, b) THEN o[b].pl.r ELSE o[CPred(o, b)].pl.r
+      IsLast(b) == CPreds(o, b) # {} /\ ~CLink(o, b) IN
+  IF ~(P.gpos /\ HasTy(P, {3})) \/ \A j \in 1 .. n : ~CLink(o, j) THEN {}
+  ELSE
+  tag(\E j \in OnChain : MovedAcross(o, Root(j)) /\ FlagSet(Root(j)), "comb-mark-on-glyph-moved-across-rtl-flag")
+  \cup tag(\E j \in OnChain : MovedAcross(o, Root(j)) /\ ~FlagSet(Root(j)), "comb-mark-on-glyph-moved-across-flag-clear")
+  \cup tag(\E j \in OnChain : FittedLtr(o, adv, Root(j)), "comb-mark-on-glyph-advance-fitted-ltr")
+  \cup tag(\E j \in OnChain : FittedRtl(o, adv, Root(j)), "comb-mark-on-glyph-advance-fitted-rtl")
+  \cup tag(\E j \in OnChain : CPreds(o, Root(j)) = {}, "comb-mark-on-chain-first")
+  \cup tag(\E j \in OnChain : CPreds(o, Root(j)) # {} /\ CLink(o, Root(j)), "comb-mark-on-chain-middle")
+  \cup tag(\E j \in OnChain : IsLast(Root(j)), "comb-mark-on-chain-last")
+  \cup tag(\E j \in OnChain : o[o[j].pl.i + 1].pl.t = "M", "comb-mark-on-mark-on-chain")
+  \cup tag(\E j \in OnChain : Inside(j), "comb-attached-mark-skipped-by-join")
+  \cup tag(\E j \in OnChain : \E b \in 1 .. n : CLink(o, b) /\ CLink(o, CNext(o, b))
+                                   /\ Root(j) \in {b, CNext(o, b), CNext(o, CNext(o, b))}, "comb-mark-on-chain-of-3-or-more")
+  \cup tag(\E j \in OnChain : GClass(P.gdef, o[Root(j)].g) = 2 /\ CLink(o, Root(j)) /\ w[j].lc > 0,
+           "comb-ligature-component-mark-then-join")
+  \cup tag(\E j \in 1 .. n : o[j].pl.t = "D" /\ Inside(j), "comb-displaced-glyph-inside-chain")
+  \cup tag(\E j \in Marks : o[Root(j)].pl.t = "D", "comb-displaced-base-with-mark-beside-chain")
+  \cup tag(\E b \in 1 .. n : IsLast(b) /\ o[b].k # 0 /\ \E j \in Marks : Root(j) > b /\ ~InChain(o, Root(j)),
+           "comb-kerning-after-chain-before-marked-glyph")
+  \cup tag(OnChain # {} /\ \E b \in 1 .. n : CLink(o, b) /\ o[b].k # 0, "comb-kerning-inside-chain-with-marks")
+  \cup tag(OnChain # {} /\ UsesKernTable(P), "comb-kern-table-with-chain-and-marks")
+  \cup tag(OnChain # {} /\ P.gdef.tab = "absent", "comb-without-gdef")
+
 VacTags(outs) ==
   LET P == tpl.prog  g == P.gdef
       dflt == Proj(Shape(DevDefault, P, w))
       tag(c, t) == IF c THEN {t} ELSE {} IN
+  CombTags(dflt) \cup
   tag(P.gpos /\ g.tab = "absent", "gdef-absent")
   \cup tag(P.gpos /\ g.tab = "noclassdef", "gdef-noclassdef")
   \cup tag(\E j \in 1 .. Len(w) : dflt[j].pl.t = "M" /\ ~IsMarkGlyph(g, w[j].g), "attached-mark-not-gdef-mark")
